@@ -365,8 +365,8 @@ inline void packetRawHeaders(Ctx& c, Rng& r, int iterations)
     for (int it = 0; it < iterations; ++it)
     {
         static const uint8_t mts[] = {wire::MT_DATA, wire::MT_STATUS, wire::MT_CONTROL, wire::MT_VENDOR, wire::MT_DATA, wire::MT_STATUS, 0x00, 0x07};
-        const uint8_t mt = mts[r.below(sizeof mts)];
-        const uint8_t pt = static_cast<uint8_t>(r.range(1, 255));
+        uint8_t mt = mts[r.below(sizeof mts)];
+        uint8_t pt = static_cast<uint8_t>(r.range(1, 255));
         Bytes pl = r.bytes(r.chance(1, 20) ? r.pick<size_t>({0, 255, 256, 65535}) : r.below(40));
         Packet p;
         const uint8_t ver = r.byte(), stream = r.byte(), flags = r.byte();
@@ -390,6 +390,20 @@ inline void packetRawHeaders(Ctx& c, Rng& r, int iterations)
                 case 7: p.setCommonFlags(flags); break;
                 default: p.setPayload(Payload(PayloadType(static_cast<CmpHeader::MessageType>(mt), pt), pl.data(), pl.size())); break;
             }
+        if (r.chance(1, 3))
+        {
+            // the payload's type is changed in place afterwards: the raw headers follow the payload the packet holds now
+            mt = mts[r.below(sizeof mts)];
+            pt = static_cast<uint8_t>(r.range(1, 255));
+            if (r.chance(1, 2))
+            {
+                p.getPayload().setMessageType(static_cast<CmpHeader::MessageType>(mt));
+                p.getPayload().setRawPayloadType(pt);
+            }
+            else
+                p.getPayload().setType(PayloadType(static_cast<CmpHeader::MessageType>(mt), pt));
+            c.count("raw_header_images_after_in_place_retype");
+        }
         Bytes expect;
         wire::put8(expect, ver);
         wire::put8(expect, 0);
